@@ -13,8 +13,11 @@ import time
 import traceback
 
 HERE = os.path.dirname(os.path.dirname(os.path.abspath(__file__)))
-EVID = os.path.join(HERE, "evidence")
-REPLAY = os.path.join(HERE, "replay")
+# VERIF_OUT redirects evidence and replay files (used when the checks are pointed at a scratch tree, so that runs against
+# seeded changes never overwrite the evidence of /repo itself); unset for every registered command
+_OUT = os.environ.get("VERIF_OUT") or HERE
+EVID = os.path.join(_OUT, "evidence")
+REPLAY = os.path.join(_OUT, "replay")
 KNOWN = os.path.join(HERE, "known_findings.json")
 
 
